@@ -314,9 +314,9 @@ def reserved_words_model(tables, rng):
     out.append("Aw: !array\n  items: float32\n  dimensions: [%s]\n" % ", ".join("'%s'" % w for w in words[12:15]))
     tn = [w[0].upper() + w[1:] for w in words[:25]]
     for t in tn:
-        out.append("%s: !record\n  fields:\n    x: int32\n" % t)
+        out.append("'%s': !record\n  fields:\n    x: int32\n" % t)    # quoted: True / False / Null are YAML scalars, not strings
     out.append("Pw: !protocol\n  sequence:\n%s\n    recs: !stream\n      items: Rw0\n    uni: Uw\n    arr: Aw\n    en: Ew0\n    fl: Fw0\n%s\n"
-               % ("\n".join("    '%s': int32" % w for w in words[15:40]), "\n".join("    t%s: %s" % (t, t) for t in tn[:10])))
+               % ("\n".join("    '%s': int32" % w for w in words[15:40]), "\n".join("    t%s: '%s'" % (t, t) for t in tn[:10])))
     return "\n".join(out)
 
 
